@@ -359,10 +359,12 @@ def specFunArg (c : SCtx) (f : Expr) : SM Nat :=
     let v ← ev f c
     SM.single v
 
-/-- the key function of `fn:sort` (always through the evaluator) -/
-def specFunArgE (c : SCtx) (f : Expr) : SM Nat := do
+/-- the key function of `fn:sort` (always through the evaluator), of arity 1 -/
+def specFunArgEN (c : SCtx) (f : Expr) (n : Nat) : SM Nat := do
   let v ← ev f c
-  SM.single v
+  let a ← SM.single v
+  let o ← SM.getObj a
+  if o.arity = n then pure a else SM.throw .XPTY0004
 
 /-- ... of the arity the signature of the higher-order function asks for (`function(item()) as …`,
 `function(item()*, item()) as …`): XPTY0004 otherwise (function conversion rules) -/
@@ -470,9 +472,7 @@ def specStep (e : Expr) (c : SCtx) : SM Seq :=
       let ys ← ev s2 c
       specForEachPair (specCall ev) a xs ys
   | .sortK s f => do
-    let a ← specFunArgE ev c f
-    let o ← SM.getObj a
-    if o.arity = 1 then pure () else SM.throw .XPTY0004
+    let a ← specFunArgEN ev c f 1
     let xs ← ev s c
     specSort (specCall ev) a xs
   | .apply f ms => do
